@@ -1,6 +1,6 @@
 use std::{
     cell::Cell,
-    collections::{BTreeMap, HashSet},
+    collections::HashSet,
     ffi::OsString,
     mem,
     path::{Path, PathBuf},
@@ -8,6 +8,7 @@ use std::{
 };
 
 use codemap::{Span, Spanned};
+use indexmap::IndexMap;
 
 use crate::{
     ast::*,
@@ -2255,7 +2256,7 @@ pub(crate) trait StylesheetParser<'a>: BaseParser + Sized {
         self.whitespace()?;
 
         let mut positional = Vec::new();
-        let mut named = BTreeMap::new();
+        let mut named = IndexMap::new();
 
         let mut rest: Option<AstExpr> = None;
         let mut keyword_rest: Option<AstExpr> = None;
